@@ -28,9 +28,15 @@ import (
 type op struct {
 	Do  bool `json:"do"`
 	Key int  `json:"key"`
+	// Inner: while it runs, f calls Do for this other key on the same cache
+	// (a computation that needs another cached result); 0 = none
+	Inner int `json:"inner,omitempty"`
 }
 
 func (o op) String() string {
+	if o.Do && o.Inner != 0 {
+		return fmt.Sprintf("Do(k%d){Do(k%d)}", o.Key, o.Inner)
+	}
 	if o.Do {
 		return fmt.Sprintf("Do(k%d)", o.Key)
 	}
@@ -87,6 +93,10 @@ type obs struct {
 	DoReturned map[int]bool   // some Do for the key has returned
 	Calls      [][]*call      // per thread
 	Seq        int
+	InnerWrong string
+	// InnerCalled: an f that ran did call Do for this key (only the one f that
+	// is invoked for the outer key gets to)
+	InnerCalled map[int]bool
 }
 
 type instance struct {
@@ -97,7 +107,7 @@ type instance struct {
 
 func (in *instance) body() {
 	vsync.ResetNames()
-	o := &obs{FCount: map[int]int{}, FVal: map[int]*value{}, FDone: map[int]bool{}, DoReturned: map[int]bool{}, Calls: make([][]*call, len(in.sc.Progs))}
+	o := &obs{FCount: map[int]int{}, FVal: map[int]*value{}, FDone: map[int]bool{}, DoReturned: map[int]bool{}, InnerCalled: map[int]bool{}, Calls: make([][]*call, len(in.sc.Progs))}
 	in.o = o
 	c := new(par.Cache)
 	in.c = c
@@ -115,26 +125,7 @@ func (in *instance) body() {
 				o.mu.Unlock()
 				var res any
 				if p.Do {
-					res = c.Do(p.Key, func() any {
-						o.mu.Lock()
-						o.FCount[p.Key]++
-						o.Seq++
-						v := &value{p.Key, o.Seq}
-						o.mu.Unlock()
-						sched.Point(sched.Op{Kind: "f-running", Obj: fmt.Sprint(p.Key)})
-						o.mu.Lock()
-						if !o.FDone[p.Key] {
-							o.FDone[p.Key] = true
-							if !in.sc.Nil {
-								o.FVal[p.Key] = v
-							}
-						}
-						o.mu.Unlock()
-						if in.sc.Nil {
-							return nil
-						}
-						return v
-					})
+					res = in.do(p.Key, p.Inner)
 				} else {
 					sched.MustNotBlock(+1)
 					res = c.Get(p.Key)
@@ -163,6 +154,42 @@ func (in *instance) body() {
 	}
 }
 
+// do calls Do(key); its f calls Do(inner) on the same cache if inner != 0.
+func (in *instance) do(key, inner int) any {
+	o := in.o
+	return in.c.Do(key, func() any {
+		o.mu.Lock()
+		o.FCount[key]++
+		o.Seq++
+		v := &value{key, o.Seq}
+		o.mu.Unlock()
+		sched.Point(sched.Op{Kind: "f-running", Obj: fmt.Sprint(key)})
+		if inner != 0 {
+			o.mu.Lock()
+			o.InnerCalled[inner] = true
+			o.mu.Unlock()
+			got := in.do(inner, 0)
+			o.mu.Lock()
+			if want := o.FVal[inner]; !o.FDone[inner] || (!in.sc.Nil && got != any(want)) || (in.sc.Nil && got != nil) {
+				o.InnerWrong = fmt.Sprintf("the Do(k%d) made by f of k%d returned %v; the single invocation of its f returned %v (completed: %v)", inner, key, got, want, o.FDone[inner])
+			}
+			o.mu.Unlock()
+		}
+		o.mu.Lock()
+		if !o.FDone[key] {
+			o.FDone[key] = true
+			if !in.sc.Nil {
+				o.FVal[key] = v
+			}
+		}
+		o.mu.Unlock()
+		if in.sc.Nil {
+			return nil
+		}
+		return v
+	})
+}
+
 func (in *instance) judge() (string, string) {
 	o := in.o
 	anyDo := map[int]bool{}
@@ -170,8 +197,14 @@ func (in *instance) judge() (string, string) {
 		for _, c := range cs {
 			if c.Op.Do {
 				anyDo[c.Op.Key] = true
+				if c.Op.Inner != 0 && o.InnerCalled[c.Op.Inner] {
+					anyDo[c.Op.Inner] = true
+				}
 			}
 		}
+	}
+	if o.InnerWrong != "" {
+		return "inner-do-wrong-value", o.InnerWrong
 	}
 	for k, n := range o.FCount {
 		if n > 1 {
@@ -309,7 +342,7 @@ func explore(r *kit.Run, sc scenario) shardResult {
 var racePass = flag.Bool("racepass", false, "free-running pass (build with -race, no overlay)")
 
 func programs(maxOps int) [][]op {
-	alpha := []op{{true, 1}, {true, 2}, {false, 1}, {false, 2}}
+	alpha := []op{{Do: true, Key: 1}, {Do: true, Key: 2}, {Do: false, Key: 1}, {Do: false, Key: 2}}
 	var out [][]op
 	var rec func(cur []op)
 	rec = func(cur []op) {
@@ -377,6 +410,18 @@ func scenarios(th bool) []scenario {
 			sc.Nil = true
 			scs = append(scs, sc)
 		}
+	}
+	// computations that need another key's result: f of k1 calls Do(k2)
+	nest := op{Do: true, Key: 1, Inner: 2}
+	for _, ps := range [][][]op{
+		{{nest}},
+		{{nest}, {{Do: true, Key: 2}}},
+		{{nest}, {{Do: false, Key: 2}, {Do: true, Key: 1}}},
+		{{nest}, {nest}},
+		{{nest}, {{Do: true, Key: 2}}, {{Do: true, Key: 1}}},
+		{{nest, {Do: false, Key: 2}}, {{Do: true, Key: 2}, {Do: false, Key: 1}}},
+	} {
+		scs = append(scs, scenario{Progs: ps, Bound: -1}, scenario{Progs: ps, Bound: -1, Nil: true})
 	}
 	// three threads, up to two calls each: quick takes those with at most 4 calls
 	// in total, thorough all of them (up to 6 calls)
